@@ -6,7 +6,7 @@ From Coq Require Import Strings.Byte.
 From Coq Require Strings.String.
 Import Strings.String.StringSyntax.
 Require Import Bytes Codes Hex Special.
-Require Gen.GenTld Gen.GenCsv.
+Require Gen.GenTld.
 Import ListNotations.
 Local Open Scope Z_scope.
 
@@ -74,90 +74,3 @@ Fixpoint nodupb (l : list (list byte)) : bool :=
 Lemma tld_names_nodup : nodupb (map row_name tld_list) = true.
 Proof. vm_compute. reflexivity. Qed.
 
-(* ---- the generator model (util/gentld.pl) and C11 ---- *)
-Definition csv_row := (list byte * list byte * list byte)%type.   (* domain, type, first 12 bytes of the manager *)
-Definition punycode_rows : list csv_row :=
-  map (fun r => match r with (d, t, m) => (unhex d, unhex t, unhex m) end) GenCsv.punycode_rows_hex.
-
-Local Open Scope string_scope.
-Definition s_not_assigned : list byte := bs "not assigned".
-Definition s_retired : list byte := bs "retired".
-Definition type_names : list (list byte * Z) :=
-  [(bs "generic", TLD_TYPE_GENERIC); (bs "country-code", TLD_TYPE_COUNTRY_CODE);
-   (bs "generic-restricted", TLD_TYPE_GENERIC_RESTRICTED); (bs "infrastructure", TLD_TYPE_INFRASTRUCTURE);
-   (bs "test", TLD_TYPE_TEST); (bs "sponsored", TLD_TYPE_SPONSORED)].
-Local Close Scope string_scope.
-
-(* m =~ /^prefix/i *)
-Fixpoint ci_prefix (p m : list byte) : bool :=
-  match p, m with
-  | [], _ => true
-  | x :: p', y :: m' => (tolower (code x) =? tolower (code y))%N && ci_prefix p' m'
-  | _ :: _, [] => false
-  end.
-
-Fixpoint list_eqb (a b : list byte) : bool :=
-  match a, b with
-  | [], [] => true
-  | x :: a', y :: b' => beqb x y && list_eqb a' b'
-  | _, _ => false
-  end.
-
-Definition type_of_name (t : list byte) : option Z :=
-  match find (fun p => list_eqb (fst p) t) type_names with Some (_, z) => Some z | None => None end.
-
-(* one row of auto_tld.c as gentld.pl prints it; None = the script dies on an unknown type *)
-Definition gen_row (r : csv_row) : option tld_row :=
-  match r with
-  | (d, t, m) =>
-    match type_of_name t with
-    | None => None
-    | Some ty =>
-      let ty' := if ci_prefix s_not_assigned m then TLD_TYPE_NOT_ASSIGNED
-                 else if ci_prefix s_retired m then TLD_TYPE_RETIRED else ty in
-      Some (d, S (length d), ty')
-    end
-  end.
-
-Definition opt_row_eqb (a : option tld_row) (b : tld_row) : bool :=
-  match a with
-  | Some (n, l, t) => list_eqb n (row_name b) && Nat.eqb l (row_len b) && (t =? row_type b)
-  | None => false
-  end.
-
-Fixpoint all2 {A B} (f : A -> B -> bool) (a : list A) (b : list B) : bool :=
-  match a, b with
-  | [], [] => true
-  | x :: a', y :: b' => f x y && all2 f a' b'
-  | _, _ => false
-  end.
-
-(* the table compiled into the library is, row for row, what the generator makes of punycode.csv *)
-Lemma table_is_generated : all2 opt_row_eqb (map gen_row punycode_rows) tld_list = true.
-Proof. vm_compute. reflexivity. Qed.
-
-(* data/tld-domains.txt is what gen_utf8_pass_test.pl makes of raw.csv: "<domain>.<domain>" per row *)
-Definition raw_rows : list (list byte * list byte) :=
-  map (fun r => match r with (d, t) => (unhex d, unhex t) end) GenCsv.raw_rows_hex.
-Definition tld_domains_txt : list (list byte) := map unhex GenCsv.tld_domains_txt_hex.
-Definition gen_domain_line (r : list byte * list byte) : option (list byte) :=
-  match type_of_name (snd r) with Some _ => Some (fst r ++ DOT :: fst r) | None => None end.
-Definition opt_line_eqb (a : option (list byte)) (b : list byte) : bool :=
-  match a with Some x => list_eqb x b | None => false end.
-Lemma domains_txt_is_generated : all2 opt_line_eqb (map gen_domain_line raw_rows) tld_domains_txt = true.
-Proof. vm_compute. reflexivity. Qed.
-
-(* raw.csv and punycode.csv list the same rows (same count, same types in the same order) *)
-Lemma raw_and_punycode_aligned :
-  all2 (fun a b => list_eqb (snd a) (snd (fst b))) raw_rows punycode_rows = true.
-Proof. vm_compute. reflexivity. Qed.
-
-(* the enum order of the shipped header is the one gentld.pl prints: UNUSED, NOT_ASSIGNED, the sorted
-   type names, SPECIAL, RETIRED, MAX — and it agrees with the numeric values the model uses *)
-Local Open Scope string_scope.
-Definition expected_enum_order : list String.string :=
-  ["TLD_TYPE_UNUSED"; "TLD_TYPE_NOT_ASSIGNED"; "TLD_TYPE_COUNTRY_CODE"; "TLD_TYPE_GENERIC";
-   "TLD_TYPE_GENERIC_RESTRICTED"; "TLD_TYPE_INFRASTRUCTURE"; "TLD_TYPE_SPONSORED"; "TLD_TYPE_TEST";
-   "TLD_TYPE_SPECIAL"; "TLD_TYPE_RETIRED"; "TLD_TYPE_MAX"].
-Lemma header_enum_is_generated : GenCsv.header_enum_order = expected_enum_order.
-Proof. reflexivity. Qed.
